@@ -769,9 +769,10 @@ class AdapterLookupBase:
         super().changed(None)
         # Detach the table before walking it: a lookup running in another
         # thread may call this method, or subscribe to more specifications,
-        # at the same time.
+        # at the same time.  Such a lookup may even have fetched the table
+        # before we detached it and add to it now, so walk a snapshot.
         required, self._required = self._required, {}
-        for r in required:
+        for r in tuple(required):
             r = r()
             if r is not None:
                 try:
